@@ -851,4 +851,25 @@ theorem firstRowSum_perturb [CommRing K] (d cnt : Nat) (hd : 0 < d) (v : List K)
           unfold vadd lsmul; simp
 
 
+/-! ## variable blocks of a set of operations (spec side of the SetQOperations theorems) -/
+theorem flatten_len_nsum (B : List (List K)) : B.flatten.length = nsum (B.map List.length) := by
+  induction B with
+  | nil => rfl
+  | cons a t ih => simp [nsum_cons, ih]
+
+/-- the variable blocks of a set of operations, in the order of `var_total` -/
+structure Blocks (K : Type) where
+  state : List (List K)
+  gate : List (List K)
+  povm : List (List K)
+  mprocess : List (List K)
+
+def Blocks.sizes (B : Blocks K) : Sizes :=
+  ⟨B.state.map List.length, B.gate.map List.length, B.povm.map List.length, B.mprocess.map List.length⟩
+def Blocks.varTotal (B : Blocks K) : List K :=
+  B.state.flatten ++ B.gate.flatten ++ B.povm.flatten ++ B.mprocess.flatten
+def Blocks.ofMode (B : Blocks K) : Nat → Option (List (List K))
+  | 0 => some B.state | 1 => some B.gate | 2 => some B.povm | 3 => some B.mprocess | _ => none
+
+
 end QM.C03
